@@ -2,10 +2,20 @@
 import numpy as np
 import gen as G
 import tdgen as T
+import emit as E
+import sweeprec as SR
 
 PROP = 'C08'
-COQ_IMPORTS = ['PT.Base.Scalar']
-FORM = 'see coq(): schedule / trace refinement (form T) where the model is available'
+COQ_IMPORTS = SR.COQ_IMPORTS
+COQ_PREAMBLE = SR.PREAMBLE
+SHARD = 4
+FORM = SR.FORM_TEXT % 'integrate_local_singlesite / integrate_local_twosite'
+TRUSTED = SR.TRUSTED
+PARTIAL = ('proved (Properties/C08.v): mixed-canonical norm and energy identities (one-site, two-site via C04, bond), the return value is the nrm of the '
+           'initial right-orthonormalisation, H is not an output of the model, the solver schedule for all L and numsteps; conservation of norm and energy '
+           'over a whole run is proved only per local step under the mixed-canonical invariant (the induction over the sweep that re-establishes the '
+           'invariant after each QR / split is not mechanised) and relative to the solver contract; floating-point drift is measured by prop(), not proved')
+ASSUMPTIONS = SR.ASSUMPTIONS
 RULE = ('Hermitian MPOs (XXZ, Ising, Bose-Hubbard, Fermi-Hubbard, random Hermitian with and without charges), L in 1..5 (two-site: L >= 2), '
         'bond profiles, sectors, purely imaginary dt of several sizes, 1..3 steps, 1..6 Krylov iterations, repeated calls on the same state, '
         'input norms != 1; non-trivial = L >= 2 and max bond >= 2; distinct by input digest')
@@ -24,6 +34,7 @@ def cases(rng, tier):
         out.append({'kind': kind, 'model': model, 'L': L, 'seed': rng.getrandbits(30), 'dt': rng.choice([0.01, 0.05, 0.2, -0.1, 0.5]),
                     'steps': rng.choice([1, 1, 2, 3]), 'numiter': rng.choice([1, 2, 3, 4, 6]), 'repeat': rng.choice([1, 1, 2]),
                     'Dmax': rng.choice([1, 2, 3, 4]), 'scale': rng.choice([1.0, 2.5, 0.3])})
+    SR.mark_replay(out, {'quick': 24, 'thorough': 120, 'search': 0}[tier], 'steps')
     return out
 
 
@@ -49,12 +60,18 @@ def impl(case):
     dt = 1j * case['dt']
     rets, norms, energies, dims = [], [], [], []
     maxdim_seen = list(dims0)
+    numeric = SR.numeric_ok(case, H, psi)
+    runs = []
+    import pytenet.evolution as EV
     try:
         for rep in range(case['repeat']):
             if case['kind'] == 'single':
-                ret = ptn.integrate_local_singlesite(H, psi, dt, case['steps'], numiter_lanczos=case['numiter'])
+                ret, run = SR.run_recorded(EV, ptn.integrate_local_singlesite, H, psi, dt, case['numiter'], numeric,
+                                           dt, case['steps'], numiter_lanczos=case['numiter'])
             else:
-                ret = ptn.integrate_local_twosite(H, psi, dt, case['steps'], numiter_lanczos=case['numiter'], tol_split=0)
+                ret, run = SR.run_recorded(EV, ptn.integrate_local_twosite, H, psi, dt, case['numiter'], numeric,
+                                           dt, case['steps'], numiter_lanczos=case['numiter'], tol_split=0)
+            runs.append(run)
             v = G.mps_dense(psi.A)
             rets.append(float(np.real(ret))); norms.append(float(np.linalg.norm(v)))
             energies.append(float(np.real(np.vdot(v, Hd @ v))))
@@ -67,7 +84,7 @@ def impl(case):
     return {'norm0': n0, 'e0': e0, 'rets': rets, 'norms': norms, 'energies': energies, 'dims0': dims0, 'dims': dims,
             'H_unchanged': hdig == hdig1, 'sparsity': G.mps_sparsity_ok(psi), 'hscale': float(np.linalg.norm(Hd, 2)),
             'qtotal_kept': bool(np.array_equal(psi.qD[0], qt[0]) and np.array_equal(psi.qD[-1], qt[1])),
-            'herm': T.herm_defect(H)}
+            'herm': T.herm_defect(H), 'runs': runs, 'H': SR.enc_mpo(H, numeric)}
 
 
 def prop(case, r):
@@ -99,13 +116,15 @@ def prop(case, r):
 
 
 def coq(case, r):
-    return None
+    if 'skip' in r or 'error' in r:
+        return None
+    return ' && '.join('(%s)' % SR.term_tdvp(case['kind'] == 'two', r['H'], case['steps'], run) for run in r['runs'])
 
 
 def klass(case, r):
     if 'skip' in r or 'error' in r:
         return case['kind'] + '/' + ('skip' if 'skip' in r else 'error')
-    return '%s/%s/L%d/it%d' % (case['kind'], case['model'], case['L'], min(case['numiter'], 3))
+    return '%s/%s/L%d/it%d%s' % (case['kind'], case['model'], case['L'], min(case['numiter'], 3), '/replay' if r['H']['A'] and 're' in r['H']['A'][0] else '')
 
 
 def nontrivial(case, r):
